@@ -77,9 +77,19 @@ func runElps(args []string, stdout io.Writer) error {
 		return fmt.Errorf("cannot resolve root directory: %w", err)
 	}
 
+	// os.OpenRoot, not os.DirFS: DirFS follows a symbolic link inside the
+	// directory wherever it points, so a link to a file or directory outside
+	// the root was read and evaluated.  A Root refuses every path that
+	// resolves outside its directory.
+	root, err := os.OpenRoot(rootDir)
+	if err != nil {
+		return fmt.Errorf("cannot open root directory: %w", err)
+	}
+	defer root.Close() //nolint:errcheck // read-only handle
+
 	env := lisp.NewEnv(nil)
 	env.Runtime.Reader = parser.NewReader()
-	env.Runtime.Library = &lisp.FSLibrary{FS: os.DirFS(rootDir)}
+	env.Runtime.Library = &lisp.FSLibrary{FS: root.FS()}
 	for _, rc := range []*lisp.LVal{
 		lisp.InitializeUserEnv(env),
 		lisplib.LoadLibrary(env),
